@@ -43,7 +43,7 @@ def new_opts(draw, typed, explicit_ids=True, fresh=False):
         o["kind"] = draw(KINDS)
     if fresh and draw(st.sampled_from([0, 0, 1])):
         o["fresh"] = True
-    if draw(st.sampled_from([0] * 6 + [1])):
+    if draw(st.sampled_from([0] * (3 if typed else 6) + [1])):
         # (node_id is documented as str|int and stored as int: "5001" and 5001 are the same id)
         o["nid"] = draw(st.sampled_from([5000, 5001, 5002, 5003, "5001", "5002"])) if draw(st.booleans()) else draw(st.integers(5000, 5020))
     return o
@@ -154,6 +154,13 @@ def histories(draw, typed=False, max_ops=40, explicit_ids=True, fresh=False, kin
                 o_["nid"] = 5000 + k_
                 del n_[2:]
                 n_.append(o_)
+    directed = []
+    if len(spec) > 10 and spec[0][1] and spec[1][1] and all(n[1] and n[1][0][0] == spec[0][1][0][0] for n in spec[:12]) and draw(st.booleans()):
+        # a big "clones" forest (every top-level node holds a clone of one data object as its first child): the clone
+        # that was registered first leaves, then the same data is added again - below the tree, below a parent whose
+        # (last) child already carries it (must be refused), and in front of such a child
+        lab = spec[0][1][0][0]
+        directed = [["remove", 1, False, False], ["add", -1, lab, None, {}], ["add", 2, lab, None, {}], ["add", 4, lab, ["c", 0], {}]]
     ref = None
     n_nodes = gen.spec_nodes(spec)
     if n_nodes > 40:
@@ -175,5 +182,5 @@ def histories(draw, typed=False, max_ops=40, explicit_ids=True, fresh=False, kin
         one = st.one_of(*[strat[k] for k in kinds])
     if min_ops is None:
         min_ops = draw(st.sampled_from([1, max(1, max_ops // 8), max(1, max_ops // 3)]))
-    ops = draw(st.lists(one, min_size=min_ops, max_size=max_ops))
+    ops = directed + draw(st.lists(one, min_size=min_ops, max_size=max_ops))
     return {"spec": spec, "spec2": spec2, "typed": typed, "ops": ops, "profile": prof}
